@@ -713,6 +713,16 @@ func (p c02) Run(w *mon.Worker, idx int) mon.Result {
 				return hold("read location overlaps the written one")
 			}
 		}
+		if creates {
+			// a position counted from the end names another element once the left-hand side has padded that sequence
+			// (the left-hand side is resolved, and creates, first): such a read is not a read of an unrelated location
+			for _, st := range ep.Steps {
+				if st.Kind == "idx" && st.Idx < 0 {
+					res.Nontrivial = false
+					return hold("read location is counted from an end the written path may move")
+				}
+			}
+		}
 		for _, ns := range nullSplats { // a null the left-hand side turns into [] on its way
 			if ref.IsPrefix(ns, ets[0].Path) || ref.IsPrefix(ets[0].Path, ns) {
 				res.Nontrivial = false
